@@ -545,6 +545,59 @@ def read_model_forwarding():
     return out
 
 
+def read_distance_sites():
+    """every place where a model chooses between a pre-computed lookup and an on-the-fly evaluation:
+    `if [self.]pre_computed_distance: T = M[A.idx][B.idx]  else: T = fn(A.features, B.features)`.
+    Returns (sites, unguarded): sites = (function, A, B, ok) with ok = same target, same node
+    expressions in the same order on both branches; unguarded = functions calling the distance function
+    outside such an else-branch."""
+    sites, unguarded = [], []
+    fn_names = ("self.distance_fn", "distance_function", "distance_fn")
+    root = os.path.join(REPO, "opfython")
+    for dirpath, _, files in sorted(os.walk(root)):
+        for fname in sorted(files):
+            if not fname.endswith(".py"):
+                continue
+            path = os.path.join(dirpath, fname)
+            rel = os.path.relpath(path, REPO)
+            tree = ast.parse(open(path).read())
+            for f in [n for n in ast.walk(tree) if isinstance(n, ast.FunctionDef)]:
+                guarded_calls = set()
+                for node in ast.walk(f):
+                    if isinstance(node, ast.If) and ast.unparse(node.test) in ("self.pre_computed_distance", "pre_computed_distance"):
+                        # a lookup site reads pre_distances[..][..] or evaluates the metric; configuration / shape
+                        # checks on the same flag are not lookup sites
+                        has_call = any(isinstance(x, ast.Call) and ast.unparse(x.func) in fn_names for b in node.orelse + node.body for x in ast.walk(b))
+                        has_lookup = any(isinstance(x, ast.Subscript) and isinstance(x.value, ast.Subscript)
+                                         and ast.unparse(x.value.value) in ("self.pre_distances", "pre_distances")
+                                         for b in node.orelse + node.body for x in ast.walk(b))
+                        if not (has_call or has_lookup):
+                            continue
+                        ok = False
+                        A = B = "?"
+                        try:
+                            t, e = node.body, node.orelse
+                            if len(t) == 1 and len(e) == 1 and isinstance(t[0], ast.Assign) and isinstance(e[0], ast.Assign):
+                                tv, ev = t[0].value, e[0].value
+                                if isinstance(tv, ast.Subscript) and isinstance(tv.value, ast.Subscript) and isinstance(ev, ast.Call) \
+                                        and ast.unparse(ev.func) in fn_names and len(ev.args) == 2 and not ev.keywords:
+                                    a_t, b_t = ast.unparse(tv.value.slice), ast.unparse(tv.slice)
+                                    a_e, b_e = ast.unparse(ev.args[0]), ast.unparse(ev.args[1])
+                                    A, B = a_t, b_t
+                                    ok = (a_t.endswith(".idx") and b_t.endswith(".idx") and a_e == a_t[:-4] + ".features"
+                                          and b_e == b_t[:-4] + ".features"
+                                          and ast.unparse(t[0].targets[0]) == ast.unparse(e[0].targets[0])
+                                          and ast.unparse(tv.value.value) in ("self.pre_distances", "pre_distances"))
+                                    guarded_calls.add(id(ev))
+                        except Exception:
+                            ok = False
+                        sites.append((f"{rel}:{f.name}:{node.lineno}", A.replace('"', "'"), B.replace('"', "'"), ok))
+                for node in ast.walk(f):
+                    if isinstance(node, ast.Call) and ast.unparse(node.func) in fn_names and id(node) not in guarded_calls:
+                        unguarded.append(f"{rel}:{f.name}")
+    return sites, sorted(set(unguarded))
+
+
 def write(path, text):
     os.makedirs(os.path.dirname(path), exist_ok=True)
     if os.path.exists(path) and open(path).read() == text:
@@ -633,6 +686,18 @@ def main():
             "/-- class attributes bound to a mutable container at class level (shared across instances) -/",
             "def classLevelMutables : List String := [" + ", ".join(f'"{c}"' for c in cm) + "]", "", "end Opf.Gen"]
     write(os.path.join(GEN, "Effects.lean"), "\n".join(eff) + "\n")
+
+    sites, ung = read_distance_sites()
+    ds = ["/- GENERATED by tools/translate.py: pre-computed lookup vs on-the-fly evaluation sites — do not edit. -/",
+          "namespace Opf.Gen", "",
+          "/-- (file:function:line, first node's index expression, second node's index expression, well-formed):",
+          "well-formed = the else-branch evaluates the metric on the SAME two nodes' features in the SAME order",
+          "and assigns the same target, and the then-branch reads `pre_distances[A.idx][B.idx]`. -/",
+          "def distanceSites : List (String × String × String × Bool) := ["]
+    ds.append(",\n".join(f'  ("{a}", "{b}", "{c}", {str(d).lower()})' for a, b, c, d in sites))
+    ds += ["]", "", "/-- functions that evaluate the metric outside such a guarded else-branch -/",
+           "def unguardedDistanceCalls : List String := [" + ", ".join(f'"{u}"' for u in ung) + "]", "", "end Opf.Gen"]
+    write(os.path.join(GEN, "DistanceSites.lean"), "\n".join(ds) + "\n")
 
     fps = fingerprints()
     fp = ["/- GENERATED by tools/translate.py — normalised-AST hashes of every function (informational). -/",
